@@ -33,7 +33,11 @@ Stems == { << "eq", "x", "y+1" >>, << "eq", "y", "0.5*x+g" >>, << "eq", "g", "[2
            \* the user's time axis defined on a lag line, and its lag
            << "lag1", "t", "s" >>, << "lag2", "t", "s" >>, << "lag3", "t", "s" >>,
            << "lag1", "t_minus_1", "t" >>, << "eq", "s", "t+1" >>, << "ic", "t", "2000." >>,
-           << "multieq", "x", "y" >> }
+           << "multieq", "x", "y" >>,
+           \* run parameters with a malformed value
+           << "badmax", "MaxTime", "2.5" >>, << "badmax", "MaxTime", "25e-1" >>, << "badmax", "MaxTime", "0.9" >>,
+           << "badmax", "MaxTime", "CAT" >>, << "badmax", "MaxTime", "inf" >>,
+           << "baderr", "Err_Tolerance", "CAT" >> }
 
 TagStems == { << "eq", "x", "y+1" >>, << "lag3", "z", "x" >>, << "ic", "x", "3" >>,
               << "maxtime", "MaxTime", "3" >>, << "errtol", "Err_Tolerance", "1e-4" >>,
@@ -103,7 +107,12 @@ MC_FormsTime == {
     F("usert", "t", "2*k", "none", "one"),
     F("lag1", "z", "x", "none", "one"),
     Marker,
-    Blank }
+    Blank,
+    \* a malformed horizon / tolerance ends the call: what came before stays, what follows is not read
+    F("badmax", "MaxTime", "2.5", "none", "one"),
+    F("badmax", "MaxTime", "0.9", "plain", "tight"),
+    F("baderr", "Err_Tolerance", "CAT", "none", "one"),
+    F("maxtime", "MaxTime", "3", "none", "one") }
 
 (* separator alphabet (quick4: <= 2 lines / thorough4: <= 3 lines; the driver spells every block  *)
 (* with each of the separator characters): free text of the sep* classes behind every kind of     *)
@@ -142,7 +151,8 @@ MC_FormsReuse == {
     F("lag1", "z", "x", "none", "one"),
     F("usert", "t", "2*k", "none", "one"),
     F("noeq", "", "x+y", "none", "one"),
-    Marker }
+    Marker,
+    F("badmax", "MaxTime", "25e-1", "none", "one") }
 
 (* middle alphabet (thorough2): the reduced one plus second spellings *)
 MC_FormsMiddle == MC_FormsReduced \cup MC_FormsTime \cup {
